@@ -202,6 +202,31 @@ func strCorpus() []StrCase {
 		{K: "pick"}, {K: "pick"}, {K: "pick"}, {K: "rm", ID: 1}}, repOp(StrOp{K: "pick"}, 9)...)})
 	// fresh SWRR pool, three periods
 	out = append(out, StrCase{Kind: 2, Ops: append([]StrOp{{K: "add", W: 5}, {K: "add", W: 1}, {K: "add", W: 1}}, repOp(StrOp{K: "pick"}, 21)...)})
+	// known finding wrr-flap-beyond-two-ratio: five backends of weights 8,1,1,1,1; 88 picks, each with its own eligible set
+	// (bit i = backend i+1 eligible), drive the running weights to (-12,16,-6,8,-6); then backend 4 stays ejected and backend 2
+	// receives 3 of the next 7 requests: |3*11 - 7*1| = 26 > 24 = 2*W_T (Props/C05.v, C05_wrr_two_ratio_refuted)
+	{
+		masks := []int{21, 31, 31, 27, 27, 27, 11, 11, 27, 17, 21, 21, 21, 5, 5, 5, 17, 17, 17, 9, 11, 3, 3, 11, 11, 9, 9, 9, 9, 25, 17, 17, 17, 21, 21,
+			5, 5, 5, 5, 5, 17, 17, 9, 9, 3, 11, 9, 9, 9, 9, 25, 25, 17, 17, 17, 17, 17, 17, 25, 17, 17, 17, 21, 21, 21, 5, 5, 5, 5, 5, 17, 21, 9, 20, 20,
+			11, 9, 9, 9, 9, 9, 9, 13, 21, 21, 21, 21, 21}
+		ops := []StrOp{{K: "add", W: 8}, {K: "add", W: 1}, {K: "add", W: 1}, {K: "add", W: 1}, {K: "add", W: 1}}
+		cur := 31
+		set := func(m int) {
+			for i := 0; i < 5; i++ {
+				if (cur^m)&(1<<i) != 0 {
+					ops = append(ops, StrOp{K: "flag", ID: i + 1, F: m&(1<<i) != 0})
+				}
+			}
+			cur = m
+		}
+		for _, m := range masks {
+			set(m)
+			ops = append(ops, StrOp{K: "pick"})
+		}
+		set(23)
+		ops = append(ops, repOp(StrOp{K: "pick"}, 11)...)
+		out = append(out, StrCase{Kind: 2, Ops: ops})
+	}
 	// round robin, concurrent exact counts
 	out = append(out, StrCase{Kind: 0, Ops: []StrOp{{K: "add", W: 1}, {K: "add", W: 1}, {K: "add", W: 1}, {K: "cpick", G: 2, M: 3360}, {K: "cpick", G: 8, M: 840},
 		{K: "cpick", G: 64, M: 105}, {K: "pick"}, {K: "pick"}, {K: "pick"}, {K: "pick"}}})
